@@ -152,15 +152,15 @@ var dayRules = ev.Register(&ev.P[dayCase]{
 			}
 		}
 		// one reused object asked in interleaved order answers like fresh objects (a memo keyed on too little shows here)
-		fresh := func(kind string, sect int) int {
-			o := noon(j)
-			if kind == "Y" {
-				return o.GetYearNineStarBySect(sect).GetIndex()
-			}
-			return o.GetMonthNineStarBySect(sect).GetIndex()
+		freshVal := map[string]int{}
+		for sect := 1; sect <= 3; sect++ { // one fresh object per question
+			freshVal[fmt.Sprintf("Y%d", sect)] = noon(j).GetYearNineStarBySect(sect).GetIndex()
+			freshVal[fmt.Sprintf("M%d", sect)] = noon(j).GetMonthNineStarBySect(sect).GetIndex()
 		}
+		fresh := func(kind string, sect int) int { return freshVal[fmt.Sprintf("%s%d", kind, sect)] }
 		ru := noon(j)
-		for a := 1; a <= 3; a++ {
+		interleave := isJie || j%8 == 0 || l.GetYearZhiIndex() != l.GetYearZhiIndexByLiChun() || l.GetYearZhiIndexByLiChun() != l.GetYearZhiIndexExact()
+		for a := 1; a <= 3 && interleave; a++ {
 			for b := 1; b <= 3; b++ {
 				seq := []struct {
 					k string
